@@ -7,7 +7,7 @@ Open Scope Z_scope.
 (* canonical CBOR of ANY well-formed value (ints, byte/text strings, booleans, null, arrays, maps, nested
    without bound) decodes to exactly that value, whatever follows it - the fact that lets the parser find
    the end of the COSE key and of the extension map *)
-Theorem C11_cbor_exact : forall v rest, wf v -> cbor_loads (cbor_enc v ++ rest) = DOk v rest.
+Theorem C11_cbor_exact : forall v rest, wfd v -> cbor_loads (cbor_enc v ++ rest) = DOk v rest.
 Proof. exact cbor_loads_enc. Qed.
 Print Assumptions C11_cbor_exact.
 
